@@ -50,8 +50,10 @@ structure St where
   iv : IovecFam.St
   codec : Codec
   maxLag : Nat := 0
+  /-- the codec is the production `Encoder` / `Decoder` (not a hook-H2 one): `ZeroCopySink`, `take_iovec` exist -/
+  prodApi : Bool := false
 
-def St.init : St := ⟨IovecFam.St.init, .none, 0⟩
+def St.init : St := ⟨IovecFam.St.init, .none, 0, false⟩
 
 def parseParams (ws : List String) : Option Params :=
   match ws with
@@ -86,26 +88,18 @@ def errName : DecErr → String
   | .cutShort => "CutShort"
   | .missingImplicitTerminator => "MissingImplicitTerminator"
 
-def step (s : St) (ws : List String) : St × List String :=
-  if s.iv.dead then (s, []) else
+def stepRest (s : St) (ws : List String) : St × List String :=
   let w := s.iv.w
   match ws with
-  | "enc_new" :: ps =>
-    match parseParams ps with
-    | some p =>
-      let (w0, _) := w.addIov Iov.empty
-      match encInit p w0 0 with
-      | some (w1, e) => fin s w1 (.enc p e)
-      | none => panic s
-    | none => (s, ["bad-op"])
-  | "dec_new" :: ps =>
-    match parseParams ps with
-    | some p => let (w0, _) := w.addIov Iov.empty; fin s w0 (.dec p .initial)
-    | none => (s, ["bad-op"])
   | ["feed", m, payload] =>
     match parsePayload payload with
     | none => (s, ["bad-op"])
     | some bytes =>
+      -- `ZeroCopySink for hcobs::Encoder` (through `dyn`): `append_borrow` = `encode`, `append_copy` =
+      -- `encode_copy`; only the production `Encoder` implements the trait
+      let sinkOk : Bool := match s.codec with | .enc _ _ => s.prodApi | _ => false
+      if (m = "sb" || m = "sc") && !sinkOk then (s, ["bad-op"]) else
+      let m := if m = "sb" then "b" else if m = "sc" then "c" else m
       if m = "a" then
         -- anchored input read into the codec's OWN arena: `read_n(count = len)` from a slice reader (one
         -- full delivery), then `encode_anchored` / `decode_anchored` = `EncWorld.encodeRead` / `decodeRead`
@@ -219,6 +213,11 @@ def step (s : St) (ws : List String) : St × List String :=
       | some (w', n) => fin s w' s.codec ["R " ++ toString n]
       | none => panic s
     | none => (s, ["bad-op"])
+  | ["take_iovec"] =>
+    -- `Decoder::take_iovec(self)`: the iovec with whatever was decoded so far, no validity check
+    match s.codec with
+    | .dec _ _ => if s.prodApi then fin s w .none ["R ok"] else (s, ["bad-op"])
+    | _ => (s, ["bad-op"])
   | ["finish"] =>
     match s.codec with
     | .enc p e =>
@@ -235,6 +234,49 @@ def step (s : St) (ws : List String) : St × List String :=
         | none => panic s
     | _ => (s, ["bad-op"])
   | _ => (s, ["bad-op"])
+
+def step (s : St) (ws : List String) : St × List String :=
+  if s.iv.dead then (s, []) else
+  let w := s.iv.w
+  match ws with
+  | "enc_new" :: ps =>
+    match parseParams ps with
+    | some p =>
+      let (w0, _) := w.addIov Iov.empty
+      match encInit p w0 0 with
+      | some (w1, e) => fin { s with prodApi := ps = ["prod"] } w1 (.enc p e)
+      | none => panic s
+    | none => (s, ["bad-op"])
+  | "dec_new" :: ps =>
+    match parseParams ps with
+    | some p => let (w0, _) := w.addIov Iov.empty; fin { s with prodApi := ps = ["prod"] } w0 (.dec p .initial)
+    | none => (s, ["bad-op"])
+  -- `Encoder::default()` = `Encoder::new()`, `Decoder::default()` = `Decoder::new()`
+  | ["enc_default"] =>
+    let (w0, _) := w.addIov Iov.empty
+    match encInit ⟨Woodpile.Gen.maxInit, Woodpile.Gen.maxSub, Woodpile.Gen.radix⟩ w0 0 with
+    | some (w1, e) => fin { s with prodApi := true } w1 (.enc ⟨Woodpile.Gen.maxInit, Woodpile.Gen.maxSub, Woodpile.Gen.radix⟩ e)
+    | none => panic s
+  | ["dec_default"] =>
+    let (w0, _) := w.addIov Iov.empty
+    fin { s with prodApi := true } w0 (.dec ⟨Woodpile.Gen.maxInit, Woodpile.Gen.maxSub, Woodpile.Gen.radix⟩ .initial)
+  -- `new_from_iovec(iovec)` on an iovec that already holds `prefill` (handed over with `push`)
+  | op :: prefill :: ps =>
+    if !(op = "enc_from" || op = "dec_from") then stepRest s ws else
+    match parseHex prefill, parseParams ps with
+    | some pre, some p =>
+      let (w0, _) := w.addIov Iov.empty
+      let (w1, id) := w0.addExt pre
+      match w1.push 0 ⟨.ext id, 0, pre.length⟩ with
+      | none => panic s
+      | some w2 =>
+        if op = "enc_from" then
+          match encInit p w2 0 with
+          | some (w3, e) => fin { s with prodApi := ps = ["prod"] } w3 (.enc p e)
+          | none => panic s
+        else fin { s with prodApi := ps = ["prod"] } w2 (.dec p .initial)
+    | _, _ => (s, ["bad-op"])
+  | _ => stepRest s ws
 
 def family : Family := { σ := St, init := St.init, step := step }
 
